@@ -45,6 +45,19 @@ EDGE_ADDERS = {"add_edge"}
 BULK_EDGE_ADDERS = {"add_edges_from", "add_weighted_edges_from", "add_path", "add_cycle", "add_star", "update"}
 
 
+def _prefixes(name: str) -> list[str]:
+    parts = name.split(".")
+    return [".".join(parts[:i]) for i in range(1, len(parts))]
+
+
+def _model_import(importer: str, importee: str) -> NativeObj:
+    """A model of the abstract `Import` API (the accessors the graph construction may use)."""
+    return NativeObj(
+        f"<Import {importer} -> {importee}>",
+        {"importer": lambda: importer, "importee": lambda: importee, "importer_parent_modules": lambda: _prefixes(importer), "importee_parent_modules": lambda: _prefixes(importee)},
+    )
+
+
 def trunc(name: str, limit: int | None) -> str:
     """The specification of the truncation."""
     return name if limit is None else ".".join(name.split(".")[: limit + 1])
@@ -274,37 +287,76 @@ class Flattening:
         return out
 
     # -- tabulation ------------------------------------------------------------------------------------
+    @staticmethod
+    def _single_def(f: FuncInfo, name: str):
+        """The nested def, or the value of the only assignment, that binds a local name (None if it is bound in several places)."""
+        found: list = []
+        for n in own_nodes(f.node):
+            if isinstance(n, (ast.FunctionDef, ast.AsyncFunctionDef)) and n.name == name:
+                found.append(n)
+            elif isinstance(n, ast.Assign) and any(isinstance(x, ast.Name) and x.id == name for t in n.targets for x in ast.walk(t)):
+                found.append(n.value if len(n.targets) == 1 and isinstance(n.targets[0], ast.Name) else None)
+            elif isinstance(n, ast.AnnAssign) and isinstance(n.target, ast.Name) and n.target.id == name and n.value is not None:
+                found.append(n.value)
+            elif isinstance(n, (ast.AugAssign, ast.For, ast.AsyncFor, ast.NamedExpr, ast.With, ast.comprehension)) and any(isinstance(x, ast.Name) and x.id == name and isinstance(x.ctx, ast.Store) for x in ast.walk(n.target if hasattr(n, "target") else n)):
+                found.append(None)
+        return found[0] if len(found) == 1 else None
+
     def _bind(self, f: FuncInfo, e: ast.expr, flow: Flow, lim: object, rnd: int) -> tuple[dict, list[str]]:
+        """Environment for tabulating `e` (an expression of construction function `f`) on a graph with limit `lim`: the receiver is the
+        graph object, raw names are test names, values derived from the limit only are the limit, local aliases / lambdas / nested
+        functions are what their only definition says; everything else is undetermined."""
+        from .c09_eval import Closure
+
         env: dict[str, object] = {}
+        envobj = Env(env)
         used: list[str] = []
         local = set(f.param_names) | {n.id for n in own_nodes(f.node) if isinstance(n, ast.Name) and isinstance(n.ctx, ast.Store)}
-        # comprehension variables of `e` itself are bound by the evaluation
-        inner = {x.id for n in ast.walk(e) if isinstance(n, ast.comprehension) for x in ast.walk(n.target) if isinstance(x, ast.Name)}
+        local |= {n.name for n in own_nodes(f.node) if isinstance(n, (ast.FunctionDef, ast.AsyncFunctionDef))}
+        is_method = f.cls is not None and f.outer is None and not f.is_staticmethod and bool(f.param_names)
+        if is_method:
+            env[f.param_names[0]] = self.objs[lim]
         i = 0
-        seen: dict[str, object] = {}
-        for n in ast.walk(e):
-            if not isinstance(n, ast.Name) or not isinstance(n.ctx, ast.Load) or n.id not in local or n.id in inner:
-                continue
-            if n.id in seen:
-                continue
-            tags = flow.tags(n)
-            bound = f.cls is not None and f.outer is None and not f.is_staticmethod and f.param_names and n.id == f.param_names[0]
-            if bound:
-                v: object = self.objs[lim]
-            elif "RAW" in tags or "FLAT" in tags:
-                name = NAME_POOL[(i + rnd) % len(NAME_POOL)]
-                other = NAME_POOL[(i + rnd + 1) % len(NAME_POOL)]
-                i += 1
-                t = self.cx.T.expr(f, n)
-                coll = any(m[0] == "b" and m[1] in ("list", "seq", "iter", "tuple", "set", "frozenset") for m in members(t))
-                v = [name, other] if coll else name
-                used += [name, other] if coll else [name]
-            elif tags and set(tags) <= {"LIMIT"}:
-                v = lim
-            else:
-                v = POISON
-            seen[n.id] = v
-            env[n.id] = v
+        aliases: list[tuple[str, ast.expr]] = []
+        queue: list[ast.AST] = [e]
+        while queue:
+            x = queue.pop()
+            # comprehension / lambda variables of the expression itself are bound by the evaluation
+            inner = {y.id for n in ast.walk(x) if isinstance(n, ast.comprehension) for y in ast.walk(n.target) if isinstance(y, ast.Name)}
+            inner |= {a.arg for n in ast.walk(x) if isinstance(n, ast.Lambda) for a in [*n.args.posonlyargs, *n.args.args, *n.args.kwonlyargs]}
+            for n in ast.walk(x):
+                if not isinstance(n, ast.Name) or not isinstance(n.ctx, ast.Load) or n.id not in local or n.id in inner or n.id in env:
+                    continue
+                tags = flow.tags(n)
+                if self.cx.is_import_value(f, n):
+                    a, b = NAME_POOL[(i + rnd) % len(NAME_POOL)], NAME_POOL[(i + rnd + 1) % len(NAME_POOL)]
+                    i += 2
+                    env[n.id] = _model_import(a, b)
+                    used += [a, b, *_prefixes(a), *_prefixes(b)]
+                elif "RAW" in tags or "FLAT" in tags:
+                    name = NAME_POOL[(i + rnd) % len(NAME_POOL)]
+                    other = NAME_POOL[(i + rnd + 1) % len(NAME_POOL)]
+                    i += 1
+                    t = self.cx.T.expr(f, n)
+                    coll = any(m[0] == "b" and m[1] in ("list", "seq", "iter", "tuple", "set", "frozenset") for m in members(t))
+                    env[n.id] = [name, other] if coll else name
+                    used += [name, other] if coll else [name]
+                elif tags and set(tags) <= {"LIMIT"}:
+                    env[n.id] = lim
+                else:
+                    env[n.id] = POISON
+                    d = self._single_def(f, n.id)
+                    if isinstance(d, (ast.FunctionDef, ast.AsyncFunctionDef)) and getattr(d, "_func", None) is not None:
+                        env[n.id] = Closure(d, d._func, envobj)
+                        queue.append(d)
+                    elif isinstance(d, (ast.Lambda, ast.Attribute, ast.Call, ast.Name, ast.IfExp)) and len(aliases) < 8:
+                        aliases.append((n.id, d))
+                        queue.append(d)
+        for name, rhs in reversed(aliases):
+            try:
+                env[name] = self.ev.ev(rhs, Frame(f, f.module, envobj))
+            except (Unknown, Raised):
+                env[name] = POISON
         return env, used
 
     @staticmethod
@@ -521,6 +573,8 @@ def rule_r1_r3(cx: Ctx, cons: list[FuncInfo]) -> Flow:
         for x in own_nodes(f.node):
             if isinstance(x, ast.Name) and x.id == tgt.id and isinstance(x.ctx, ast.Load) and x.lineno > getattr(outer, "end_lineno", outer.lineno):
                 fl.flat_exprs[id(x)] = "flatten"
+    # ---- R1 on the second pass
+    flow = run_flow(cx, cons, fl.flat_exprs)
     # limit used in the construction code outside anything that was classified
     classified_nodes: set[int] = set()
     for f, e in cands:
@@ -532,7 +586,7 @@ def rule_r1_r3(cx: Ctx, cons: list[FuncInfo]) -> Flow:
             if id(n) in classified_nodes or id(n) in idiom_nodes:
                 continue
             is_carrier = isinstance(n, ast.Attribute) and n.attr in fl.carriers and isinstance(n.ctx, ast.Load)
-            is_limit = isinstance(n, ast.Name) and isinstance(n.ctx, ast.Load) and "LIMIT" in flow1.tags(n)
+            is_limit = isinstance(n, ast.Name) and isinstance(n.ctx, ast.Load) and "LIMIT" in flow.tags(n)
             if not (is_carrier or is_limit):
                 continue
             st = stmt_of(n)
@@ -550,8 +604,6 @@ def rule_r1_r3(cx: Ctx, cons: list[FuncInfo]) -> Flow:
                     continue
             stray.append((f, n))
     stray_limit = bool(stray)
-    # ---- R1 on the second pass
-    flow = run_flow(cx, cons, fl.flat_exprs)
     n = 0
     kinds: set[str] = set()
     for f in cons:
@@ -593,6 +645,33 @@ def _eq_atom(a: ast.expr, b: ast.expr):
     return atom(f"{x} == {y}")
 
 
+def _alias_source(f: FuncInfo, e: ast.expr, depth: int = 0) -> ast.expr:
+    """`v` -> `w` when `v` is bound exactly once in `f`, by `v = w` (or pairwise `v, x = w, y`) and `w` is a plain name."""
+    if not isinstance(e, ast.Name) or depth > 3 or e.id in f.param_names:
+        return e
+    src: list[ast.expr | None] = []
+    for n in own_nodes(f.node):
+        if isinstance(n, ast.Assign):
+            for t in n.targets:
+                if isinstance(t, ast.Name) and t.id == e.id:
+                    src.append(n.value)
+                elif isinstance(t, (ast.Tuple, ast.List)) and any(isinstance(x, ast.Name) and x.id == e.id for x in t.elts):
+                    if isinstance(n.value, (ast.Tuple, ast.List)) and len(n.value.elts) == len(t.elts):
+                        src.append(n.value.elts[[isinstance(x, ast.Name) and x.id == e.id for x in t.elts].index(True)])
+                    else:
+                        src.append(None)
+        elif isinstance(n, (ast.AnnAssign, ast.AugAssign, ast.For, ast.AsyncFor, ast.NamedExpr)) and any(isinstance(x, ast.Name) and x.id == e.id and isinstance(x.ctx, ast.Store) for x in ast.walk(n.target)):
+            src.append(n.value if isinstance(n, ast.AnnAssign) else None)
+    if len(src) == 1 and isinstance(src[0], ast.Name):
+        w = src[0]
+        # the source must not be re-bound after the alias was taken, and the alias must not sit in a loop that re-binds the source
+        stores = [x for x in own_nodes(f.node) if isinstance(x, ast.Name) and x.id == w.id and isinstance(x.ctx, (ast.Store, ast.Del))]
+        in_loop = any(isinstance(a, (ast.For, ast.AsyncFor, ast.While)) for a in ancestors(w) if a is not f.node)
+        if all(x.lineno < w.lineno for x in stores) and not (in_loop and stores):
+            return w
+    return e
+
+
 def _unmodified_param(f: FuncInfo, e: ast.expr) -> str | None:
     if not isinstance(e, ast.Name) or e.id not in f.param_names:
         return None
@@ -621,8 +700,9 @@ def guarded_distinct(cx: Ctx, cons: list[FuncInfo], f: FuncInfo, node: ast.AST, 
     """Is `node` only evaluated when u != v?  (True / False / None = cannot tell)"""
     try:
         gf = guard_formula(f, node)
-        if implies(gf, f_not(_eq_atom(u, v))):
-            return True, f"guarded in {f.qualname}"
+        for x, y in ((u, v), (_alias_source(f, u), _alias_source(f, v))):
+            if implies(gf, f_not(_eq_atom(x, y))):
+                return True, f"guarded in {f.qualname}"
     except AnalysisError as e:
         return None, str(e)
     pu, pv = _unmodified_param(f, u), _unmodified_param(f, v)
@@ -649,9 +729,22 @@ def guarded_distinct(cx: Ctx, cons: list[FuncInfo], f: FuncInfo, node: ast.AST, 
     return False, "not guarded"
 
 
+def _flat_comparisons(cons: list[FuncInfo], flow: Flow) -> list[tuple[FuncInfo, ast.Compare]]:
+    """Equality tests between two flattened names anywhere in the construction code."""
+    out = []
+    for f in cons:
+        for n in own_nodes(f.node):
+            if isinstance(n, ast.Compare) and len(n.ops) == 1 and isinstance(n.ops[0], (ast.Eq, ast.NotEq, ast.Is, ast.IsNot)):
+                a, b = set(flow.tags(n.left)) - {"LIMIT"}, set(flow.tags(n.comparators[0])) - {"LIMIT"}
+                if a == {"FLAT"} and b == {"FLAT"}:
+                    out.append((f, n))
+    return out
+
+
 def rule_r2(cx: Ctx, cons: list[FuncInfo], flow: Flow) -> None:
     res, repo = cx.res, cx.repo
     n = 0
+    flat_cmp = _flat_comparisons(cons, flow)
     for f in cons:
         for node, what, args in cx.sink_events(f):
             if not isinstance(node, ast.Call):
@@ -670,6 +763,10 @@ def rule_r2(cx: Ctx, cons: list[FuncInfo], flow: Flow) -> None:
                 ok, why = guarded_distinct(cx, cons, f, node, u, v)
                 if ok is None:
                     res.undecide("C09.R2", key, why, where(f, node))
+                    continue
+                if not ok and flat_cmp:
+                    cf, cn = flat_cmp[0]
+                    res.undecide("C09.R2", key, f"`{norm(node, 60)}` is not provably guarded by a test that its two ends differ, but {cf.qualname} compares two flattened names in `{norm(cn, 50)}`: the connection between that test and this insertion is not understood", where(f, node))
                     continue
                 res.add("C09.R2", key, ok, f"an edge is only added between two different (flattened) nodes ({why})" if ok else f"`{norm(node, 70)}` is not guarded by a test that `{norm(u, 30)}` and `{norm(v, 30)}` differ: sub modules collapsed into one node import 'themselves'", where(f, node), kind="dominance")
             elif short in BULK_EDGE_ADDERS:
